@@ -100,8 +100,41 @@ STREAMS = [
 ]
 
 
+def over_cap(cls, stream, chunk=1 << 20):
+    """feed more than the size cap and look at the state BEFORE the peer closes"""
+    async def go():
+        fut = asyncio.get_running_loop().create_future()
+        p = cls("gemini://h.example/x", fut) if cls is GeminiClientProtocol else cls("titan://h.example/x;size=2;mime=text/plain", b"hi", fut)
+        t = FakeTransport()
+        p.connection_made(t)
+        for i in range(0, len(stream), chunk):
+            try:
+                p.data_received(stream[i:i + chunk])
+            except Exception:  # noqa: BLE001
+                break
+            if t.closed:
+                break
+        done, closed = fut.done(), t.closed
+        if done and fut.exception() is None:
+            fut.result()
+        elif done:
+            fut.exception()
+        return done, closed
+    return asyncio.run(go())
+
+
 def bank(focus=None):
     tried = 0
+    cap = 10 * 1024 * 1024
+    for cls in (GeminiClientProtocol, TitanClientProtocol):
+        for name, stream in (("no header line at all", b"2" * (cap + 2)), ("header then an over-long body", b"20 text/gemini\r\n" + b"a" * (cap + 2)),
+                             ("header split before LF then an over-long body", b"20 text/gemini\r" + b"\n" + b"a" * (cap + 2))):
+            tried += 1
+            done, closed = over_cap(cls, stream)
+            if not (done and closed):
+                return dict(confirmed=True, input=dict(protocol=cls.__name__, server_bytes=f"{name}: {len(stream)} bytes", chunks="1 MiB reads"),
+                            observed=dict(violated=[f"after more than the 10 MiB cap was received the call is still waiting (future done: {done}, transport closed: {closed}): it buffers without bound until the peer closes or the timeout"]),
+                            clause="[C13] a response larger than the size cap ends the call at once with an error naming the problem")
     for cls in (GeminiClientProtocol, TitanClientProtocol):
         for stream in STREAMS:
             want = oracle(stream)
